@@ -159,13 +159,28 @@ def nonce_script(seed, ntraces, nops, driver, workdir):
             elif x < 0.36:
                 # a crowd of other identities, some with fast clocks (they share nothing with n1, n2, a1)
                 # every modelled identity has just been heard (fresh nonce), then the crowd, then the captured requests again
+                # (two identities never heard before among them: their first request is certainly accepted)
+                fills = getattr(g, "fills", 0) + 1
+                g.fills = fills
+                victims = idents + ["v%da" % fills, "v%db" % fills]
                 v = g.now * 1000 + 7
-                for ident in idents:
+                for ident in victims:
                     g.ops.append({"op": "Nonce", "ident": ident, "v": v, "wallet": ident.startswith("a")})
-                g.ops.append({"op": "NonceFill", "n": rnd.choice([300, 1100, 2100]), "ahead": rnd.choice([0, 90, 1200])})
-                for ident in idents:
+                g.ops.append({"op": "NonceFill", "n": rnd.choice([300, 1100, 2100]), "ahead": rnd.choice([0, 90, 1200, 1200])})
+                for ident in victims:
                     g.ops.append({"op": "Nonce", "ident": ident, "v": v - rnd.choice([0, 0, 3]), "wallet": ident.startswith("a")})
                 g.nonces.append(v)
+            elif x < 0.385:
+                # an identity whose clock is far ahead: its nonce stays the high-water mark for as long as it is fresh,
+                # i.e. long after the pool's 15 minutes have passed
+                far = getattr(g, "fars", 0) + 1
+                g.fars = far
+                ahead = rnd.choice([1000, 1900, 3600, 86400])
+                v = (g.now + ahead) * 1000 + 3
+                g.ops.append({"op": "Nonce", "ident": "far%d" % far, "v": v, "wallet": False})
+                g.sleep(rnd.choice([901, 960, 1800, 1900]))
+                g.ops.append({"op": "Nonce", "ident": "far%d" % far, "v": v, "wallet": False})
+                g.ops.append({"op": "Nonce", "ident": "far%d" % far, "v": g.now * 1000 + 1, "wallet": False})
             else:
                 ident = rnd.choice(idents)
                 g.nonce([ident], wallet=ident.startswith("a"))
